@@ -552,6 +552,43 @@ def r11_8(ctx) -> None:
               construct="dict_value short-circuit")
 
 
+def r11_18(ctx) -> None:
+    """R11.18  "for every supported key type, size and curve": the curve-name tables that JWK import indexes are the RFC tables -
+    OKP public and private maps name the four RFC 8037 curves with the class of that curve, EC `_dss_curves` / `_curves_dss` are the
+    four RFC 7518 / 8812 curves and inverse to each other (a missing or misspelt name makes a conformant JWK unimportable)."""
+    eng = ctx.eng
+    P, F = eng.prog, eng.folder
+    from ..fold import ExtVal
+
+    def names(tab) -> Dict[str, str]:
+        return {k: (v.name.split(".")[-1] if isinstance(v, ExtVal) else repr(v)) for k, v in tab.items()} if isinstance(tab, dict) else {}
+
+    m = P.mod("rfc8037.okp_key")
+    for tab, suffix in (("PUBLIC_KEYS_MAP", "PublicKey"), ("PRIVATE_KEYS_MAP", "PrivateKey")):
+        got = names(F.module_value(m, tab))
+        want = {c: f"{c}{suffix}" for c in T.OKP_CURVES}
+        ctx.check(got == want, "R11.18", None, None, f"okp_key.{tab}", f"OKP curve table {tab} differs from RFC 8037: {got}", f"{want}", construct=f"OKP table {tab}")
+    eb = P.cls("rfc7518.ec_key:ECBinding")
+    dss = names(F.class_attr(eb, "_dss_curves"))
+    ctx.check(dss == T.EC_CURVES, "R11.18", None, None, "ECBinding._dss_curves", f"EC curve table differs: {dss}", f"{T.EC_CURVES}", construct="EC table _dss_curves")
+    inv = F.class_attr(eb, "_curves_dss")
+    ok = isinstance(inv, dict) and sorted(inv.values()) == sorted(T.EC_CURVES) and len(inv) == len(T.EC_CURVES)
+    ctx.check(ok, "R11.18", None, None, "ECBinding._curves_dss", f"the inverse EC curve table does not name the four curves: {inv if isinstance(inv, dict) else repr(inv)}",
+              "pyca curve name -> JWK crv for the four curves", construct="EC table _curves_dss")
+    # the import functions index exactly these tables with the JWK's crv
+    n = 0
+    from .common import resolve_all
+    for short, tab in (("rfc8037.okp_key:OKPBinding.import_private_key", "PRIVATE_KEYS_MAP"), ("rfc8037.okp_key:OKPBinding.import_public_key", "PUBLIC_KEYS_MAP")):
+        fn = P.func(short)
+        op = fn.pos_params[-1]
+        srcs = [t_ for node in fn_nodes(fn) if isinstance(node, ast.Call) and isinstance(node.func, ast.Attribute) and node.func.attr in ("from_private_bytes", "from_public_bytes")
+                for t_ in resolve_all(eng, fn, node.func.value)]
+        n += len(srcs)
+        ctx.check(bool(srcs) and all(x == f"{tab}[{op}['crv']]" for x in srcs), "R11.18", fn, fn.node, f"{fn.short} :: key class", f"the OKP key class is {srcs}, not {tab}[{op}['crv']]",
+                  f"{tab}[{op}['crv']]", construct=f"OKP class lookup in {fn.short}")
+    ctx.count("R11.18", n, 2, "OKP import class look-ups")
+
+
 def run(ctx) -> None:
     from .common import forwarding_discipline
     ctx.guard(forwarding_discipline, "R11.15", ['parameters', 'password', 'encoding', 'key_type', 'crv_or_size', 'data', 'value'], 46)  # arguments are handed on under their own name (generic routing rule, rules/common.py)
@@ -567,6 +604,7 @@ def run(ctx) -> None:
     ctx.guard(r11_10)
     ctx.guard(r11_11)
     ctx.guard(r11_12)
+    ctx.guard(r11_18)
     from .c12 import r12_2
     ctx.guard_as("R11.13", r12_2)
     from .c19 import r19_8
